@@ -2,6 +2,7 @@
 import Swiftness.Model.Felt
 import Swiftness.Model.Outcome
 import Swiftness.Model.PublicInput
+import Swiftness.Model.StarkConfig
 
 namespace Swiftness.Proto
 open Swiftness
@@ -50,6 +51,25 @@ def parsePI? : List String → Option PublicInput
     pure { logNSteps := ← felt? lns, rangeCheckMin := ← felt? rmin, rangeCheckMax := ← felt? rmax, layout := ← felt? layout,
            dynamicParams := dynp, segments := segs, paddingAddr := ← felt? pa, paddingValue := ← felt? pv,
            mainPage := mp, continuousPageHeaders := hs }
+  | _ => none
+
+def tcfg? : List Felt → Option Fri.TableConfig
+  | [n, h, f] => some ⟨n, ⟨h, f⟩⟩
+  | _ => none
+
+def oneTcfg? (s : String) : Option Fri.TableConfig := do
+  match ← rows? s with
+  | [r] => tcfg? r
+  | _ => none
+
+/-- StarkConfig = 13 tokens: t c nq nf pow orig inter comp fri.lis fri.nlayers fri.last steps inner -/
+def parseCfg? : List String → Option StarkConfig
+  | [t, c, nq, nf, pow, orig, inter, comp, lis, nl, last, steps, inner] => do
+    pure { traces := ⟨← oneTcfg? orig, ← oneTcfg? inter⟩, composition := ← oneTcfg? comp,
+           fri := { logInputSize := ← felt? lis, nLayers := ← felt? nl, innerLayers := ← (← rows? inner).mapM tcfg?,
+                    friStepSizes := ← felts? steps, logLastLayerDegreeBound := ← felt? last },
+           powBits := ← nat? pow, logTraceDomainSize := ← felt? t, nQueries := ← felt? nq, logNCosets := ← felt? c,
+           nFriendly := ← felt? nf }
   | _ => none
 
 end Swiftness.Proto
